@@ -308,7 +308,7 @@ def run(ctx):
             ctx.notes.append("race-enabled harness could not be built: " + out[-300:])
         else:
             p = subprocess.run([exe, "-mode", "uuidconc", "-n", "40", "-light"], cwd=vcheck.REPO, env=vcheck.goenv(), stdout=subprocess.PIPE,
-                               stderr=subprocess.PIPE, timeout=900, text=True)
+                               stderr=subprocess.PIPE, timeout=900 * vcheck.TSCALE, text=True)
             races = p.stderr.count("WARNING: DATA RACE")
             ctx.cov["race_detector"] = {"data_races": races, "exit": p.returncode}
             if races > 0:
